@@ -7,7 +7,15 @@ export CARGO_NET_OFFLINE=true
 if [ -d harness/analyze/src ] && [ -f harness/analyze/Cargo.toml ]; then
   (cd harness/analyze && cargo build --offline --features hooks)
 fi
-python3 tools/gen_optable.py .build/cargo-core/debug/etk-h lean/EtkVerif/Gen/OpTable.lean
-[ -f tools/gen_grammar.py ] && python3 tools/gen_grammar.py .build/cargo-core/debug/etk-h lean/EtkVerif/Gen/Grammar.lean /repo/etk-asm/src/parse/asm.pest
-[ -f tools/gen_sites.py ] && python3 tools/gen_sites.py .build/cargo-core/debug/etk-h lean/EtkVerif/Gen/PanicSites.lean
+# translators: the same code path the checks use (the opcode-table translator needs the OUT_DIR cargo reports for etk-ops)
+python3 - <<'PY'
+import sys
+sys.path.insert(0, "tools")
+import common as C
+C.build_core()
+C.regenerate()
+if C.TRANSLATOR_PROBLEMS:
+    print(C.TRANSLATOR_PROBLEMS)
+    sys.exit(1)
+PY
 (cd lean && lake build EtkVerif etkmodel)
